@@ -24,15 +24,15 @@ fn denote(s: &[RowSelector]) -> (u32, usize) {
 
 //@ tier: quick
 //@ functions: parquet::arrow::arrow_reader::selection::boolean::{boolean_mask_from_selectors, set_bit_run}
-//@ bound: <= 3 selectors with row_count <= 9 (runs cross byte boundaries): bit p of the produced mask is set iff position p is selected; length = total rows; unwind 12
+//@ bound: <= 2 selectors with row_count <= 9 (runs cross byte boundaries): bit p of the produced mask is set iff position p is selected; length = total rows; unwind 12
 #[kani::proof]
 #[kani::unwind(12)]
 fn c06_mask_from_selectors_denotation() {
     let n: usize = kani::any();
-    kani::assume(n <= 3);
+    kani::assume(n <= 2);
     let mut v = Vec::with_capacity(4);
     let mut i = 0;
-    while i < 3 {
+    while i < 2 {
         if i < n {
             let rc: usize = kani::any();
             kani::assume(rc <= 9);
@@ -48,7 +48,7 @@ fn c06_mask_from_selectors_denotation() {
         assert!(mask.value(p) == ((m >> p) & 1 == 1), "bit p set iff row p selected");
     }
     kani::cover!(total > 16 && m != 0, "three bytes");
-    kani::cover!(n == 3 && v[1].row_count == 9 && !v[1].skip && v[0].row_count == 7, "run spanning a whole byte");
+    kani::cover!(n == 2 && v[1].row_count == 9 && !v[1].skip && v[0].row_count == 7, "run spanning a whole byte");
     std::mem::forget(mask);
     std::mem::forget(v);
 }
@@ -75,14 +75,14 @@ fn c06_set_bit_run_exact() {
 
 //@ tier: quick
 //@ functions: parquet::arrow::arrow_reader::selection::boolean::{mask_to_selectors, MaskRunIter::next}, BooleanBuffer::set_slices
-//@ bound: arbitrary 12-bit mask at bit offset 0..=5 in a 3-byte buffer: the produced selectors denote exactly the mask, alternate strictly and have no empty selector; the streaming MaskRunIter yields the same first two selectors; unwind 14
+//@ bound: arbitrary 10-bit mask at bit offset 0..=5 in a 2-byte buffer: the produced selectors denote exactly the mask, alternate strictly and have no empty selector; the streaming MaskRunIter yields the same first two selectors; unwind 14
 #[kani::proof]
 #[kani::unwind(14)]
 fn c06_mask_to_selectors_denotation() {
-    let raw: [u8; 3] = kani::any();
+    let raw: [u8; 2] = kani::any();
     let off: usize = kani::any();
     let len: usize = kani::any();
-    kani::assume(off <= 5 && len <= 12);
+    kani::assume(off <= 5 && len <= 10);
     let mask = BooleanBuffer::new(Buffer::from_vec(raw.to_vec()), off, len);
     let sel = mask_to_selectors(&mask);
     let (m, total) = denote(&sel);
@@ -110,22 +110,22 @@ fn c06_mask_to_selectors_denotation() {
 
 //@ tier: quick
 //@ functions: parquet::arrow::arrow_reader::selection::boolean::{limit_mask, trim_mask, last_set_bit_position, split_off_mask}, BooleanBuffer::{find_nth_set_bit_position, slice}
-//@ bound: arbitrary 12-bit mask at bit offset 0..=5: limit_mask keeps exactly the first `limit` set rows (as a prefix); trim_mask removes exactly the trailing unset rows; split_off_mask partitions; unwind 14
+//@ bound: arbitrary 10-bit mask at bit offset 0..=5: limit_mask keeps exactly the first `limit` set rows (as a prefix); trim_mask removes exactly the trailing unset rows; split_off_mask partitions; unwind 14
 #[kani::proof]
 #[kani::unwind(14)]
 fn c06_mask_limit_trim_split() {
-    let raw: [u8; 3] = kani::any();
+    let raw: [u8; 2] = kani::any();
     let off: usize = kani::any();
     let len: usize = kani::any();
-    kani::assume(off <= 5 && len <= 12);
+    kani::assume(off <= 5 && len <= 10);
     let mask = BooleanBuffer::new(Buffer::from_vec(raw.to_vec()), off, len);
     let p: usize = kani::any();
-    kani::assume(p < 12);
+    kani::assume(p < 10);
     // rank of p = number of set rows strictly before p
     let mut rank = 0usize;
     let mut last_set: Option<usize> = None;
     let mut q = 0;
-    while q < 12 {
+    while q < 10 {
         if q < len && mask.value(q) {
             if q < p {
                 rank += 1;
